@@ -32,7 +32,8 @@ REQUIRED = {"capture.nothing_reaches_real_stream": {"quick": 1200, "thorough": 3
             "formatter.no_output_of_passing_scenarios": {"quick": 300, "thorough": 15000},
             "run.streams_restored_at_end": {"quick": 600, "thorough": 30000}}
 REQUIRED_SEEN = {"switches": ["out1err1log1", "out1err1log0", "out1err0log1", "out1err0log0", "out0err1log1", "out0err1log0",
-                              "out0err0log1", "out0err0log0"]}
+                              "out0err0log1", "out0err0log0"],
+                 "log_habit": ["plain", "flush", "bulk"]}
 NSHARDS = {"quick": 16, "thorough": 16}
 MARK = re.compile(r"\[([BMAS])\|([^|\]]*)\|([^|\]]*)\|(out|err|log)\]")
 
@@ -114,11 +115,22 @@ def run_case(lab, mon, case, rng, sample=False):
         if st is not None and st.in_user_code > 0 and s.strip():
             leaks.append((name, s[:80]))
 
+    log_habit = case.get("log_habit")        # None | "flush" | "bulk"
+
     def emit(kind, sid, scen):
         printed.append((kind, sid, scen))
         sys.stdout.write(marker(kind, sid, scen, "out") + "\n")
         sys.stderr.write(marker(kind, sid, scen, "err") + "\n")
         logging.getLogger("bvm.c18").warning("%s", marker(kind, sid, scen, "log"))
+        if log_habit == "flush":
+            # the usual "make sure everything is written" idiom of user code: must not lose what was captured
+            for h in logging.getLogger().handlers:
+                h.flush()
+        elif log_habit == "bulk" and kind == "M":
+            # a chatty step: more records in one scenario than a buffering handler's default capacity (1000)
+            lg = logging.getLogger("bvm.c18.bulk")
+            for i in range(1001):
+                lg.warning("bulk %d", i)
 
     def step_plugin(state, context, text):
         sc = getattr(context, "scenario", None)
@@ -290,6 +302,11 @@ def run(spec, mon):
         case["nested"] = nested
         if (i // 8) % 2 == 0:       # (independent of the switch combination, which cycles with i % 8)
             case["root_level"] = rng.choice([logging.NOTSET, logging.DEBUG, logging.INFO, logging.WARNING, logging.ERROR])
+        if i % 7 == 3:
+            case["log_habit"] = "flush"
+        elif i % 23 == 5:
+            case["log_habit"] = "bulk"
+        mon.seen("log_habit", case.get("log_habit") or "plain")
         mode = i % 5
         if mode == 1:
             obs0 = lab.run(case["program"], args=case["args"])
